@@ -7,8 +7,8 @@ C = lambda f, *a: ('call', f, list(a))
 I = lambda f, *a: ('intr', f, list(a))
 
 
-def prog(fns, globals_=None, self_arity=None):
-    return dict(fns=fns, globals=globals_ or [], self_arity=self_arity or {})
+def prog(fns, globals_=None, self_arity=None, globals_last=False):
+    return dict(fns=fns, globals=globals_ or [], self_arity=self_arity or {}, globals_last=globals_last)
 
 
 F = 'float'
@@ -129,5 +129,19 @@ P['r_recdots'] = prog([('f3', [('a', F), ('b', F), ('c', F, N(5))], B('+', B('+'
                        ('dsp', [('x', F)], ('callrec', 'f3', [('a', V('x')), ('b', N(2))], 'dots'))])
 P['r_recdefault2'] = prog([('f3', [('z', F), ('a', F), ('m', F, N(5))], B('+', B('+', B('*', V('z'), N(100)), B('*', V('a'), N(10))), V('m'))),
                            ('dsp', [('x', F)], ('callrec', 'f3', [('a', V('x')), ('z', N(2))]))])
+# nested closures: an inner closure reads / assigns a variable of its GRANDPARENT function (through the intermediate closure)
+P['c_grandread'] = prog([('p', [('a', F), ('b', F)],
+                          ('let', 'c2', ('lambda', [('m', F), ('n', F)], ('let', 'd2', ('lambda', [], B('+', B('+', V('a'), B('*', V('b'), N(10))), B('*', V('m'), N(100)))),
+                                                                                ('callv', V('d2'), []))),
+                           ('callv', V('c2'), [N(3), N(4)]))),
+                         ('dsp', [('a', F)], C('p', a, N(9)))])
+P['c_grandassign'] = prog([('p', [('a', F), ('b', F)],
+                            ('let', 'l', N(5), ('let', 'c2', ('lambda', [('m', F), ('n', F), ('o', F)],
+                                                              ('let', 'd2', ('lambda', [], ('assign', 'l', B('+', V('b'), V('m')), B('+', V('l'), V('a')))), ('callv', V('d2'), []))),
+                                                B('+', ('callv', V('c2'), [N(3), N(4), N(5)]), B('*', V('l'), N(100)))))),
+                           ('dsp', [('a', F)], C('p', a, N(9)))])
+# closures with their own state, called from two sites
+P['c_statecls'] = prog([('mkcnt', [('inc', F)], ('lambda', [], B('+', ('self',), V('inc')))),
+                        ('dsp', [('a', F)], B('+', ('callv', V('c'), []), a))], globals_=[('c', C('mkcnt', N(0.25)))], globals_last=True)
 
 PROGRAMS = P
